@@ -1,5 +1,5 @@
 """C05 — hostile or broken input is contained: error reply, no app call, worker lives (W2; fault enumeration)."""
-from simkit.core import Result, EventLog, h64, b2j, j2b, bsafe
+from simkit.core import Result, EventLog, h64, b2j, j2b, bsafe, Wedged
 from oracles import resp_ref
 from worlds import httpgen, conn
 from worlds.stream import observe, make_cfg as stream_cfg
@@ -37,7 +37,9 @@ PROG = [{"status": "200 OK", "headers": [["Content-Type", "text/plain"], ["Conte
          "chunks": ["ok"], "read_body": "all", "head_aware": True},
         {"status": "200 OK", "headers": [["Content-Type", "text/plain"]], "kind": "iter", "chunks": ["o", "k"],
          "read_body": "all", "head_aware": True},
-        {"status": "200 OK", "headers": [["Content-Length", "2"]], "kind": "write", "chunks": ["ok"], "read_body": "none", "head_aware": True}]
+        {"status": "200 OK", "headers": [["Content-Length", "2"]], "kind": "write", "chunks": ["ok"], "read_body": "none", "head_aware": True},
+        {"status": "200 OK", "headers": [["Content-Type", "text/plain"]], "kind": "iter", "chunks": ["ok"], "read_body": "late",
+         "head_aware": True}]
 FOLLOW = b"GET /follow-up HTTP/1.1\r\nHost: f\r\nConnection: close\r\n\r\n"
 
 _CORPUS = None
@@ -106,6 +108,10 @@ def one_run(res, log, case, data, cuts, fault_at, fault_kind, yielded, label):
     ctx = lambda: "%s family=%s keepalive=%s cfg=%r stream=%s wire=%s" % (
         label, fam, case["keepalive"], case["cfg"], bsafe(data, 200), bsafe(bytes(sock.wire), 160))
     log.add(fam, "served", (label, len(sock.ops), len(sock.wire), state.calls, sock.closed))
+    if isinstance(esc, Wedged):
+        res.violate("C05:%s:wedged" % fam, "handle() does not terminate on this input (%s): the connection is never closed and the worker "
+                    "serves nothing else; %s" % (esc, ctx()))
+        return sock
     if esc is not None:
         res.violate("C05:%s:exception-escaped:%s" % (fam, type(esc).__name__),
                     "handle() let %r escape into the run loop; %s" % (esc, ctx()))
@@ -128,7 +134,9 @@ def one_run(res, log, case, data, cuts, fault_at, fault_kind, yielded, label):
             if not (faulted and last) and not r.get("interim"):
                 if r["code"] is None and not r.get("partial_head"):
                     res.violate("C05:%s:wire:bad-status-line" % fam, "malformed response; %s" % ctx())
-                elif not faulted:
+                elif not faulted and not state.failed:
+                    # (an application that fails - e.g. on a broken request body - after its head was sent leaves a
+                    #  prefix of its response followed by close: that is the contained outcome)
                     res.violate("C05:%s:wire:incomplete-response" % fam, "incomplete response without any fault; %s" % ctx())
             continue
         if _is_error_page(r):
